@@ -344,15 +344,40 @@ func (f *frame) havocLoopMemory(h *ssa.BasicBlock) {
 			case *ssa.Store:
 				// The address may be loop-variant; forget by root allocation.
 				root := addrRoot(in.Addr)
-				for k := range f.mem.m {
+				for k, old := range f.mem.m {
 					if root != nil {
 						if a, ok := f.env[root]; ok && strings.Contains(k, a.key) {
-							delete(f.mem.m, k)
+							// the value at the loop header is whatever earlier iterations left there
+							f.mem.m[k] = f.g.U.mk("loopval", fmt.Sprintf("%s:%d:%s", f.tag, h.Index, k), old.Typ)
+						}
+					}
+				}
+				// a location first written inside the loop has no entry yet: remember that loads
+				// of it at or after the header see a loop-carried value, not the initial one
+				if root != nil {
+					if a, ok := f.env[root]; ok {
+						if addr, ok2 := f.env[in.Addr]; ok2 {
+							k := f.memKey(addr)
+							if _, have := f.mem.m[k]; !have && strings.Contains(k, a.key) {
+								var t types.Type
+								if pt, isP := in.Addr.Type().Underlying().(*types.Pointer); isP {
+									t = pt.Elem()
+								}
+								f.mem.m[k] = f.g.U.mk("loopval", fmt.Sprintf("%s:%d:%s", f.tag, h.Index, k), t)
+							}
 						}
 					}
 				}
 			case ssa.CallInstruction:
-				_ = in
+				if cal := in.Common().StaticCallee(); cal != nil && isBuilderMethod(calleeName(cal)) && len(in.Common().Args) > 0 {
+					// the builder's content is carried around the loop
+					if recv, ok := f.env[in.Common().Args[0]]; ok {
+						u := f.g.U
+						caddr := u.mk("faddr", "$content", types.NewPointer(types.Typ[types.String]), recv)
+						k := f.memKey(caddr)
+						f.mem.m[k] = u.mk("loopval", fmt.Sprintf("%s:%d:%s", f.tag, h.Index, k), types.Typ[types.String])
+					}
+				}
 				impure = true
 			}
 		}
@@ -786,6 +811,11 @@ func (f *frame) call(in ssa.Instruction, c *ssa.CallCommon, rc Ref, typ types.Ty
 		}
 	}
 	name := calleeName(callee)
+	if isBuilderMethod(name) && len(args) >= 1 {
+		if e, ok := f.builderCall(in, name, args, rc, typ); ok {
+			return e
+		}
+	}
 	if f.g.Search && (name == "slices.Contains" || name == "slices.ContainsFunc" || name == "slices.DeleteFunc" || name == "slices.IndexFunc") && len(args) == 2 {
 		if e := f.searchCall(in, name, args, rc, typ); e != nil {
 			return e
@@ -1117,6 +1147,13 @@ func allocIsLocal(a *ssa.Alloc) bool {
 					return false
 				}
 			case *ssa.DebugRef:
+			case *ssa.Call:
+				// x.WriteString(..), x.String() on a local strings.Builder / bytes.Buffer: modelled
+				// as operations on its content, the builder does not escape
+				cal := r.Call.StaticCallee()
+				if cal == nil || !isBuilderMethod(calleeName(cal)) || len(r.Call.Args) == 0 || r.Call.Args[0] != v {
+					return false
+				}
 			case *ssa.MakeClosure:
 				// captured by a closure that is only called directly (or
 				// deferred) and that only loads/stores the cell
@@ -1843,4 +1880,82 @@ func (f *frame) searchCall(in ssa.Instruction, name string, args []*E, rc Ref, t
 		return u.mk("call", name, typ, coll, u.mk("lambda", fmt.Sprint(d), nil, u.Bool(u.ToBool(v))))
 	}
 	return u.Bool(u.Exists(coll, u.ToBool(v)))
+}
+
+// ---- strings.Builder / bytes.Buffer as a string accumulator ----
+
+func isBuilderMethod(name string) bool {
+	for _, p := range []string{"(*strings.Builder).", "(*bytes.Buffer)."} {
+		if strings.HasPrefix(name, p) {
+			switch strings.TrimPrefix(name, p) {
+			case "Write", "WriteString", "WriteByte", "WriteRune", "String", "Len", "Reset", "Grow":
+				return true
+			}
+		}
+	}
+	return false
+}
+
+// builderCall models the accumulating methods as "content = content + piece"
+// on a pseudo field of the builder, so that building a string with a Builder
+// and with += are the same expression.
+func (f *frame) builderCall(in ssa.Instruction, name string, args []*E, rc Ref, typ types.Type) (*E, bool) {
+	u := f.g.U
+	strT := types.Typ[types.String]
+	recv := args[0]
+	if recv.Op != "alloc" && recv.Op != "faddr" {
+		return nil, false
+	}
+	caddr := u.mk("faddr", "$content", types.NewPointer(strT), recv)
+	cur := func() *E {
+		if v, ok := f.mem.m[f.memKey(caddr)]; ok {
+			return f.underRC(v)
+		}
+		if recv.Op == "alloc" && strings.HasSuffix(recv.Aux, "/local") {
+			return u.Str("") // a new builder that nobody else can have written to is empty
+		}
+		return u.Field(recv, "$content", strT)
+	}
+	method := name[strings.LastIndex(name, ".")+1:]
+	appendPiece := func(piece *E) {
+		f.store(caddr, u.Bin(token.ADD, cur(), piece, strT), rc, in)
+	}
+	errNil := u.mk("nil", "", nil)
+	switch method {
+	case "Write":
+		if len(args) != 2 {
+			return nil, false
+		}
+		appendPiece(u.mk("convert", "", strT, args[1]))
+		return u.mk("tuple", "", typ, u.Len(args[1]), errNil), true
+	case "WriteString":
+		if len(args) != 2 {
+			return nil, false
+		}
+		appendPiece(args[1])
+		return u.mk("tuple", "", typ, u.Len(args[1]), errNil), true
+	case "WriteByte":
+		if len(args) != 2 {
+			return nil, false
+		}
+		appendPiece(u.mk("convert", "", strT, args[1]))
+		return errNil, true
+	case "WriteRune":
+		if len(args) != 2 {
+			return nil, false
+		}
+		piece := u.mk("convert", "", strT, args[1])
+		appendPiece(piece)
+		return u.mk("tuple", "", typ, u.Len(piece), errNil), true
+	case "String":
+		return cur(), true
+	case "Len":
+		return u.Len(cur()), true
+	case "Reset":
+		f.store(caddr, u.Str(""), rc, in)
+		return u.mk("void", "", nil), true
+	case "Grow":
+		return u.mk("void", "", nil), true
+	}
+	return nil, false
 }
